@@ -38,7 +38,9 @@ META = dict(
               'log-density; path analysis of the -inf short-circuit (which calls '
               'are live under which path condition); precedence tables; '
               'def-use of pars into the forward call; name-agreement check of '
-              'call arguments',
+              'call arguments; sibling cross-check of the failure handlers of every '
+              '_forward against the failure classes the theories raise once a '
+              'compiled routine has run (statement walk with a may-have-run flag)',
     level_text='Static: P1, P3, P4 are identities of the code with the documented '
                'formulas for all models/parameters/data; P2 is a path fact (no call '
                'to the forward model is reachable on the -inf path); P5-P7 are '
